@@ -32,12 +32,15 @@ MANIFEST = {
              "the property ignores. Replayed on the real banman.Store over real bbolt with concrete spellings made "
              "per class from the seed (dotted quad, with port, eight IPv4-mapped IPv6 forms, compressed / expanded / "
              "upper-case / dotted-tail IPv6, bracketed with port, explicit /32 and /128 masks in both mask lengths, "
-             "net.ParseCIDR forms, non-default masks /8../30 and /32../120); after EVERY step Status is queried for "
+             "net.ParseCIDR forms, net.IPNet literals, non-default masks /8../30 and /32../120, IPv4 networks also with "
+             "their mask in IPv4-mapped 16-byte form /(96+n)); after EVERY step Status is queried for "
              "every class through one spelling of every group (on a snapshot, so the lazy delete does not disturb the "
              "store under test) and BannedUntilLapse / RecordedReason / NotBannedAfterLapse / NotBannedAfterUnban / "
              "SameRecordEverySpelling / ReopenPreserves / EveryFormAccepted are judged. Thorough adds real-time bans "
              "of 1-5 s on a 3 s grid (lapse observed on both sides of the expiry second), bans that lapse within a "
-             "second, and random walks. (2) specs/BanStore/BanEnforce.tla: peer life cycle Connect / Version(service "
+             "second, and random walks. Both tiers also replay two-caller steps: every pair of store calls, the second "
+             "caller's call run in its own goroutine after database transaction 0, 1 or 2 of the first caller's call "
+             "(a walletdb.DB proxy under the store gates every transaction), judged against both legal orders. (2) specs/BanStore/BanEnforce.tla: peer life cycle Connect / Version(service "
              "bits) / VerAck / Misbehave(kind) / Unban / Drop over connection slots and ip:port addresses; replayed, "
              "without a network, on a ChainService with the real ban store, real addrmgr, real btcd connmgr (scripted "
              "in-memory connections from its Dial), the real peerHandler, outboundPeerConnected, btcd peer handshake -> "
